@@ -424,6 +424,74 @@ Fixpoint judge_tree (l : N) (sc : scn) (tw : bool) (lg : list pev) : bool :=
 Definition judge (sc : scn) (depth : N) (lg : list pev) : bool :=
   N.eqb depth 0 && judge_tree 0 sc true lg.
 
+(* ---- the SAME request object passing through Router.invoke_request twice inside one request context: a custom
+   execution policy (harness/c13/app.py retry_policy) that retries router.invoke_request(request) -- after a
+   failure (mode false) or always (mode true) -- with the scenario of the second attempt swapped in.  The
+   callback deques and counters belong to the request object, so they carry over: response callbacks left pending
+   by a first attempt that raised run in the second one. *)
+Definition P_RETRY := 22.
+Definition log_retry : M := fun st => (log_ev 0 P_RETRY 0 st, Ok 0).
+Definition retry_body (first second : M) (mode : bool) : M :=
+  fun st => match first st with
+            | (st1, Ok v) => if mode then seq log_retry second st1 else (st1, Ok v)
+            | (st1, Ex _) => seq log_retry second st1
+            end.
+Definition run_retry (ev : N) (mode : bool) (sc1 sc2 : scn) (s0 : list N) : state * res :=
+  with_fresh_request
+    (frame 0 (retry_body (invoke_request ev 0 sc1 true None) (invoke_request ev 0 sc2 true None) mode))
+    (init_state s0).
+Definition gen_run_retry (ev : N) (mode : bool) (sc1 sc2 : scn) (s0 : list N) : state * res :=
+  with_fresh_request
+    (frame 0 (retry_body (gen_invoke_request (prims_top ev 0 sc1 None) true)
+                         (gen_invoke_request (prims_top ev 0 sc2 None) true) mode))
+    (init_state s0).
+
+(* one pass of a request object through invoke_request, judged like [judge_own] but with [cr]/[cf] callbacks of
+   each kind already run by earlier passes and [left] response callbacks still pending from them *)
+Definition cntp (p : N) (L : list pev) : N := N.of_nat (length (filter (is_pt p) L)).
+Definition cur_clause (L : list pev) : bool :=
+  forallb (fun e => negb (is_pt P_VIEW e || is_pt P_EXCVIEW e || is_pt P_EXCVIEW_HTTP e) || e_cur e) L.
+Definition judge_pass (sc : scn) (cr cf : N) (left : list N) (L : list pev) : bool :=
+  let came_out := existsb (is_pt P_OVER_OUT) L && negb (has_fault sc P_OVER_OUT) in
+  let fins := map e_aux (filter (is_pt P_FIN_CB) L) in
+  let resps := map e_aux (filter (is_pt P_RESP_CB) L) in
+  let nnew := length (filter (is_pt P_NEWRESP) L) in
+  let rregs := left ++ registered_from 0 (s_regs sc) cr cf
+                         (before_first (fun e => is_pt P_NEWRESP e || is_pt P_FIN_CB e) L) in
+  cur_clause L
+  && (has_fault sc P_FIN_CB ||
+      (list_eqb fins (registered_from 1 (s_regs sc) cr cf L) && from_first (is_pt P_FIN_CB) (is_pt P_FIN_CB) L))
+  && (if came_out then
+        if has_fault sc P_RESP_CB
+        then is_prefix resps rregs && Nat.leb nnew 1
+        else list_eqb resps rregs && Nat.eqb nnew 1
+             && from_first (is_pt P_NEWRESP) (fun e => is_pt P_NEWRESP e || is_pt P_FIN_CB e) L
+      else match resps with [] => Nat.eqb nnew 0 | _ => false end).
+Fixpoint split_retry (L : list pev) : list pev * option (list pev) :=
+  match L with
+  | [] => ([], None)
+  | e :: r => if is_pt P_RETRY e then ([], Some r)
+              else match split_retry r with (a, b) => (e :: a, b) end
+  end.
+(* every attempt is judged as a request of its own: its finished callbacks (those registered during it) each run
+   once, in order, after everything else of that attempt; its response callbacks -- the ones left pending by the
+   first attempt, then its own -- and NewResponse exactly when a response came out of it.  When a callback of the
+   first attempt is told to raise, what is left pending is not tracked: the second attempt is then only judged
+   for "views see their own request". *)
+Definition judge_retry (sc1 sc2 : scn) (depth : N) (lg : list pev) : bool :=
+  N.eqb depth 0 &&
+  match split_retry lg with
+  | (L1, o) =>
+      judge_pass sc1 0 0 [] L1 &&
+      match o with
+      | None => true
+      | Some L2 =>
+          if has_fault sc1 P_FIN_CB || has_fault sc1 P_RESP_CB then cur_clause L2
+          else judge_pass sc2 (cntp P_RESP_CB L1) (cntp P_FIN_CB L1)
+                          (skipn (length (filter (is_pt P_RESP_CB) L1)) (registered_from 0 (s_regs sc1) 0 0 L1)) L2
+      end
+  end.
+
 (* ---- wire glue *)
 Definition get_fault (v : val) : option fault :=
   match v with VL [p; k; n] => olet p := get_N p in olet k := get_N k in olet n := get_N n in Some (mkFault p k n)
@@ -506,6 +574,17 @@ Definition run_C13 (v : val) : val :=
                                     Some (VL [vbool (judge sc od ol)])
                    | _ => None end in
         Some (VL [put_res r; vN d; vlist put_ev (log st); vbool (judge sc d (log st)); jo])
+    | VL [ev; mode; sc1; sc2; ob] =>
+        olet ev := get_N ev in olet mode := get_bool mode in
+        olet sc1 := get_scn 16 sc1 in olet sc2 := get_scn 16 sc2 in
+        let '(st, r) := gen_run_retry ev mode sc1 sc2 [] in
+        let d := N.of_nat (length (stk st)) in
+        olet jo := match ob with
+                   | VL [] => Some (VL [])
+                   | VL [od; ol] => olet od := get_N od in olet ol := get_list_of get_ev ol in
+                                    Some (VL [vbool (judge_retry sc1 sc2 od ol)])
+                   | _ => None end in
+        Some (VL [put_res r; vN d; vlist put_ev (log st); vbool (judge_retry sc1 sc2 d (log st)); jo])
     | VL [VI n] => Some (VL [VI 0; VI 0; VI n])      (* soak: no mismatch, no stray frame, n threads done *)
     | VL [idx; ob] =>
         olet idx := get_nat idx in
